@@ -51,6 +51,8 @@ pub struct Seen {
     pub later_live_untouched: u64,
     pub preset_with_literal_host: u64,
     pub ipv6_lists: u64,
+    pub local_addr6_cases: u64,
+    pub services_from_factory: u64,
 }
 
 // ------------------------------------------------------------------ resolution + TCP fallback
@@ -183,7 +185,12 @@ fn kind_of(e: &ConnectError) -> String {
     }
 }
 
-async fn tcp_case(net: &Net, list: &[Entry], how: How, local: bool, seen: &mut Seen) -> Result<(), Fail> {
+/// `local`: 0 none, 1 local_addr 127.0.0.1, 2 local_addr ::1 (every IPv4 address of the list then fails at once with
+/// an address-family error and the fallback has to go on to the IPv6 one). `via_factory`: the connector service is
+/// obtained through `ServiceFactory::new_service` instead of `Connector::service`.
+async fn tcp_case(net: &Net, list: &[Entry], how: How, local: u8, via_factory: bool, seen: &mut Seen) -> Result<(), Fail> {
+    let local6 = local == 2;
+    let local = local == 1;
     // concrete addresses
     let (mut li, mut ri) = (0, 0);
     let addrs: Vec<SocketAddr> = list
@@ -209,8 +216,17 @@ async fn tcp_case(net: &Net, list: &[Entry], how: How, local: bool, seen: &mut S
         answer: if how == How::CustomErr { Err("scripted resolver failure".into()) } else { Ok(addrs.clone()) },
         calls: calls.clone(),
     };
-    let svc = Connector::new(Resolver::custom(resolver)).service();
-    let what = format!("list {list:?} via {how:?}{}", if local { " with local_addr 127.0.0.1" } else { "" });
+    let connector = Connector::new(Resolver::custom(resolver));
+    let svc = if via_factory {
+        seen.services_from_factory += 1;
+        match actix_service::ServiceFactory::<ConnectInfo<String>>::new_service(&connector, ()).await {
+            Ok(s) => s,
+            Err(()) => return fail("C19:factory-failed", "Connector::new_service failed".into()),
+        }
+    } else {
+        connector.service()
+    };
+    let what = format!("list {list:?} via {how:?}{}{}", if local { " with local_addr 127.0.0.1" } else if local6 { " with local_addr ::1" } else { "" }, if via_factory { " (service from the factory)" } else { "" });
     let mut req: ConnectInfo<String> = match how {
         How::PreSet => {
             if addrs.len() == 1 && list.len() % 2 == 1 {
@@ -223,6 +239,10 @@ async fn tcp_case(net: &Net, list: &[Entry], how: How, local: bool, seen: &mut S
         How::IpLiteral => ConnectInfo::new(format!("127.0.0.1:{}", addrs[0].port())),
         How::Custom | How::CustomErr => ConnectInfo::new("svc.test:77".to_string()),
     };
+    if local6 {
+        req = req.set_local_addr(IpAddr::V6(std::net::Ipv6Addr::LOCALHOST));
+        seen.local_addr6_cases += 1;
+    }
     if local {
         req = req.set_local_addr(IpAddr::V4(Ipv4Addr::LOCALHOST));
         seen.local_addr_cases += 1;
@@ -302,7 +322,7 @@ async fn tcp_case(net: &Net, list: &[Entry], how: How, local: bool, seen: &mut S
             other => fail("C19:wrong-error-for-empty-answer", format!("{what}: got {:?}", other.as_ref().map(|_| "stream").map_err(kind_of))),
         };
     }
-    let first_live = list.iter().position(|e| *e == Entry::Live || *e == Entry::Live6);
+    let first_live = if local6 { list.iter().position(|e| *e == Entry::Live6) } else { list.iter().position(|e| *e == Entry::Live || *e == Entry::Live6) };
     if list.contains(&Entry::Live6) {
         seen.ipv6_lists += 1;
     }
@@ -357,7 +377,7 @@ async fn tcp_case(net: &Net, list: &[Entry], how: How, local: bool, seen: &mut S
             // the error must be the last attempt's
             let last = *list.last().unwrap();
             let kinds: Vec<Entry> = list.to_vec();
-            if kinds.contains(&Entry::Refused) && kinds.contains(&Entry::Unreachable) {
+            if kinds.contains(&Entry::Refused) && kinds.contains(&Entry::Unreachable) && !local6 {
                 seen.last_error_identified += 1;
                 let is_refused = e.kind() == std::io::ErrorKind::ConnectionRefused;
                 if (last == Entry::Refused) != is_refused {
@@ -656,17 +676,21 @@ pub fn run(args: &Args, rep: &mut Report) {
                         if how == How::CustomErr && code % 7 != 0 {
                             continue;
                         }
-                        for local in [false, true] {
+                        for local in [0u8, 1, 2] {
                             // binding 127.0.0.1 and dialling the broadcast address gives yet another error: keep the two dead kinds apart
-                            if local && (list.contains(&Entry::Unreachable) || list.contains(&Entry::Live6)) {
+                            if local == 1 && (list.contains(&Entry::Unreachable) || list.contains(&Entry::Live6)) {
+                                continue;
+                            }
+                            if local == 2 && (net.live6.is_none() || how == How::IpLiteral || how == How::PreSetLiteralHost || list.contains(&Entry::Unreachable)) {
                                 continue;
                             }
                             case_no += 1;
                             if case_no % shard.1 != shard.0 {
                                 continue;
                             }
-                            let name = format!("tcp/{list:?}/{how:?}/local{}", local as u8);
-                            let r = tcp_case(&net, &list, how, local, &mut seen).await;
+                            let via_factory = case_no % 3 == 1;
+                            let name = format!("tcp/{list:?}/{how:?}/local{local}/f{}", via_factory as u8);
+                            let r = tcp_case(&net, &list, how, local, via_factory, &mut seen).await;
                             out.push((name, r.err()));
                         }
                     }
@@ -717,7 +741,7 @@ pub fn run(args: &Args, rep: &mut Report) {
     };
     let _ = Rng::new(0);
     rep.exhaustive = true;
-    rep.rule = "TCP part: every address list of length 0..4 (0..5 thorough) over {live loopback listener, live IPv6 loopback listener (at most one per list), closed port (refused), broadcast address (network unreachable, when the sandbox reports it immediately)} x {addresses pre-set on the request (set_addrs / with_addr), custom resolver answering with the list, custom resolver failing, IPv4-literal host} x {no local address, local_addr 127.0.0.1} through the real ConnectorService; \
+    rep.rule = "TCP part: every address list of length 0..4 (0..5 thorough) over {live loopback listener, live IPv6 loopback listener (at most one per list), closed port (refused), broadcast address (network unreachable, when the sandbox reports it immediately)} x {addresses pre-set on the request (set_addrs / with_addr), custom resolver answering with the list, custom resolver failing, IPv4-literal host} x {no local address, local_addr 127.0.0.1, local_addr ::1 (IPv4 entries then fail with an address-family error and the fallback must go on)} through the real ConnectorService, obtained from Connector::service or from its ServiceFactory; \
                 oracle: resolver call log (never consulted for pre-resolved requests and IP literals, exactly once with (host, port) otherwise), error variant (NoRecords, Resolver, Unresolved, Io), peer address = first live address in order, accept counters of all live listeners (exactly one attempt on the chosen one, none on later ones), local address honoured, and with both dead kinds present the returned I/O error kind is the last attempt's; plus ResolverService / TcpConnectorService unit cases. \
                 TLS part: rustls-0.23 and OpenSSL connector services over an in-memory duplex against a rustls server presenting {leaf for good.test from the trusted CA, leaf for other.test, self-signed, leaf from an untrusted CA} and {trusted leaf with DNS name good.test and iPAddress 127.0.0.1} x requested names {good.test, other.test, GOOD.test, empty, 300 chars, 'a b', embedded NUL, 127.0.0.1, good.test., -x.test}: success iff the chain is trusted and the certificate covers a syntactically valid name (then a random payload is echoed and compared), otherwise an error is returned; a panic out of call/poll is a violation. Enumerated completely (exhaustive over the stated lists); distinct = distinct case label."
         .into();
@@ -735,6 +759,8 @@ pub fn run(args: &Args, rep: &mut Report) {
     rep.add("obs_later_live_listener_untouched", seen.later_live_untouched);
     rep.add("obs_carried_addresses_with_ip_literal_host", seen.preset_with_literal_host);
     rep.add("obs_lists_with_ipv6_loopback_address", seen.ipv6_lists);
+    rep.add("obs_local_addr_ipv6_cases", seen.local_addr6_cases);
+    rep.add("obs_connector_services_from_factory", seen.services_from_factory);
     rep.add("obs_tls_handshakes_ok", seen.tls_ok);
     rep.add("obs_tls_rejected", seen.tls_rejected);
     rep.add("obs_tls_invalid_names", seen.tls_invalid_names);
